@@ -143,7 +143,7 @@ fn gen_value(ctx: &mut Ctx, depth: u32) -> String {
         2 => (*ctx.rng.pick(&["true", "false", "null", "nil", "1e3", "-0.0", "inf", "NaN", "+7", "9223372036854775808"])).to_string(),
         3 => format!("\"{}\"", ctx.rng.pick(&["AAPL", "a b", "x,y", "q{r}", "it's", "", "é", "a\\\"b", "tab\\tn\\n", "#no // comment", "@home", "semi;colon"])),
         4 => format!("'{}'", ctx.rng.pick(&["s", "two words", "d\"q"])),
-        5 => (*ctx.rng.pick(&["abc", "GOOG", "a_b", "BATCH", "hello world"])).to_string(),
+        5 => (*ctx.rng.pick(&["abc", "GOOG", "a_b", "BATCH", "hello world", "x:y", "a'b", "1.", ".5", "1e", "TRUE", "[", "\"", "a\\", "{k: 1, l: [2, 3]}", "(1, 2)"])).to_string(),
         6 => ctx.rng.range(0, 9).to_string(),
         7 => format!("\"{}\"", ctx.rng.below(1000)),
         8 => format!("{}", (ctx.rng.next() as i64) >> 1),
@@ -264,7 +264,31 @@ fn gen_file(ctx: &mut Ctx) -> String {
     s
 }
 
+/// payloads aimed at the corners of the `.evt` grammar (parse_event_line / split_fields / parse_value)
+fn grammar_corners() -> Vec<String> {
+    let deep = |n: usize| format!("A {{ x: {}1{} }}", "[".repeat(n), "]".repeat(n));
+    vec![
+        deep(31), deep(32), deep(33), deep(34),
+        "A { x: 1 } ;".into(), "A { x: 1 };;;".into(), "A {{ x: 1 }}".into(), "A { x: 1".into(), "A x: 1 }".into(),
+        "A { x: 1, x: 2, y: 3, x: [4] }".into(), "A { : 5 }".into(), "A { x: }".into(), "A { x:: 1 }".into(),
+        "A { s: \"a, b\", t: 'c, d' }".into(), "A { s: \"a\\\"b, c\", n: 2 }".into(), "A { s: \"tail\\\\\", n: 2 }".into(),
+        "A { s: \"\\é, x\", n: 2 }".into(), "A { s: \"open, n: 2 }".into(), "A { s: 'it's', n: 2 }".into(),
+        "A { a: [1, [2, 3], \"x]\", (4, 5)], b: {k: 1, l: 2} }".into(), "A { a: ], b: 1 }".into(), "A { a: [1, 2 }".into(),
+        "A { v: +7, w: -0, x: 9223372036854775807, y: 9223372036854775808, z: -9223372036854775808 }".into(),
+        "A { v: 1., w: .5, x: 1.e3, y: 1e, z: e5, u: 1_000, t: 0x10, s: -inf, r: +NaN, q: Infinity, p: . }".into(),
+        "A { v: \"\", w: '', x: \", y: ', z: \"a\" }".into(), "A { v: TRUE, w: Null, x: nil, y: true , z:false }".into(),
+        "A(1, , 2,, 3)".into(), "A(1, (2, 3), [4, 5])".into(), "A()".into(), "A(".into(), "A) (".into(), "(1)".into(), "{ x: 1 }x".into(),
+        "Foo(1, {2})".into(), "A [1] { x: 1 }".into(), "  Spaced   Name  { x : 1 }".into(), "A { naïve: é, \u{3000}k\u{a0}: \u{2003}v }".into(),
+    ]
+}
+
 pub fn run(ctx: &mut Ctx, _name: &str) {
+    {
+        let corners = grammar_corners();
+        ctx.count_n("grammar-corner", corners.len() as u64);
+        emit_file(ctx, &corners.join("\n"), false);
+        for c in &corners { emit_file(ctx, &format!("@5s {}\n{};\n", c, c), false); }
+    }
     // recorded witnesses of the two repaired defects and of the known finding
     emit_file(ctx, "@0s A { x: 1 }\n@1s B { x: 2 }\nC { x: 3 }\n", true);
     emit_file(ctx, "BATCH soon\nA { x: 1 }\n", true);
